@@ -142,6 +142,10 @@ class View:
 
         return self._st.obj(v.ref).get("I", IT.LIForm.nil)
 
+    def S(self, v):
+        """soft constraints of a z3 Optimize value (list term)"""
+        return self._st.obj(v.ref).get("S", L.LForm.nil)
+
     def depth(self, v):
         return len(self._st.obj(v.ref)["pushed"])
 
@@ -323,6 +327,7 @@ class Executor:
         self.src_hash = hashlib.sha256(self.src_segment.encode()).hexdigest()[:16]
         self.cls = fname.split(".")[0] if "." in fname else None
         self._ints_stack: list = []
+        self._soft_mods: set = set()
 
     # ---- loops are numbered in source order; effectful comprehension statements count
     def _number_loops(self):
@@ -831,11 +836,13 @@ class Executor:
             if name in st.env:
                 st.env[name] = same_type_fresh(st.env[name], name, st)
         for ref in heap_mods:
-            self.havoc_heap(ref)
+            self.havoc_heap(ref, soft=(ref in self._soft_mods))
             if spec.stack == "grows" and not isinstance(ref, tuple):
                 # the body only pushes: below an unknown segment nothing can be popped
                 o = st.obj(ref)
                 st.update(ref, pushed=o["pushed"] + [None])
+                if "S" in o:
+                    st.update(ref, pushedS=o.get("pushedS", []) + [st.fresh_const("S", L.LForm.sort)])
         case = self.choose()  # True: arbitrary iteration, False: exit
         if case:
             if is_for:
@@ -897,7 +904,7 @@ class Executor:
                     elif not a.eq(b):
                         self.oblige(f"inv.frame.stack#{k}", node, a == b)
 
-    def havoc_heap(self, ref):
+    def havoc_heap(self, ref, soft=True):
         if isinstance(ref, tuple):
             _tag, r, name = ref
             cur = self.st.obj(r)["fields"][name]
@@ -909,6 +916,8 @@ class Executor:
             return
         if o["kind"] == "solver":
             self.st.update(ref, A=self.st.fresh_const("A", L.WSet))
+            if soft and "S" in o:
+                self.st.update(ref, S=self.st.fresh_const("S", L.LForm.sort))  # soft constraints of an Optimize
             if self._ints_stack and self._ints_stack[-1]:
                 # only a loop whose LoopSpec says ints=True may assert integer constraints
                 from . import iterm as IT
@@ -920,6 +929,7 @@ class Executor:
     def mod_set(self, body, target):
         names = set()
         heap = set()
+        soft = self._soft_mods = set()  # solvers whose SOFT constraints the body may change
         ex = self
 
         class Vis(ast.NodeVisitor):
@@ -1014,6 +1024,8 @@ class Executor:
                         v = ex.st.env.get(root.id)
                         if isinstance(v, VRef) and ex.st.obj(v.ref)["kind"] == "solver":
                             heap.add(v.ref)
+                            if f.attr == "add_soft":
+                                soft.add(v.ref)
                         elif isinstance(v, VRef) and ex.st.obj(v.ref)["kind"] == "obj":
                             ct = resolve_method(ex.st.obj(v.ref)["cls"], f.attr)
                             if ct is not None:
@@ -1027,7 +1039,9 @@ class Executor:
                                         o = ex.st.obj(o.ref)["fields"][pth]
                                     if len(path) > 1:
                                         heap.add(("field", o.ref, path[-1]))
-                        elif isinstance(v, (VList, VDict)) and f.attr in ("append", "extend", "add", "update", "pop", "remove", "clear", "insert", "discard"):
+                        elif f.attr in MUT and not isinstance(v, VRef) and root.id in ex.st.env:
+                            # in-place mutation of a local container, whatever its current value is (an
+                            # untyped empty literal becomes opaque after the havoc: the contract must type it)
                             names.add(root.id)
                     # calls that receive a solver as argument may modify it
                 for a in list(n.args) + [kw.value for kw in n.keywords]:
@@ -1035,6 +1049,7 @@ class Executor:
                         v = ex.st.env.get(a.id)
                         if isinstance(v, VRef) and ex.st.obj(v.ref)["kind"] == "solver":
                             heap.add(v.ref)
+                            soft.add(v.ref)  # a callee may add soft constraints
                 s.generic_visit(n)
 
         for b in body:
@@ -1224,6 +1239,8 @@ class Executor:
             return VCallable(f"method:concdict.{attr}", bound=o)
         if isinstance(o, VOpaque) and getattr(o, "kind", None) == "path":
             return VCallable(f"method:path.{attr}", bound=o)
+        if isinstance(o, VOpaque) and getattr(o, "kind", None) == "z3model":
+            return VCallable(f"method:z3model.{attr}", bound=o)
         if o.__class__.__name__ == "VCtx":
             from . import lib as _lib
 
@@ -1742,6 +1759,8 @@ class Executor:
             for n, gv in nst.ghost.items():
                 st.env[f"__ghost.{n}"] = gv
         st.assume(ct.ensures(nst, res))
+        if getattr(ct, "derived_ensures", None):
+            st.assume(ct.derived_ensures(nst, res))
         return res
 
     def havoc_modified(self, ct, bound):
